@@ -65,15 +65,15 @@ type kit[T num, A arr[T, A]] struct {
 
 var kitFloat64 = kit[float64, data.NDFloat64]{
 	name: "float64", elemSize: int(unsafe.Sizeof(float64(0))),
-	cSize: int(unsafe.Sizeof(float64(0))),
-	cGet:  func(c *cbuf, i int) float64 { return float64(unsafeSlice[float64](c, i+1)[i]) },
-	cSet:  func(c *cbuf, i int, v float64) { unsafeSlice[float64](c, i+1)[i] = float64(v) },
+	cSize:     int(unsafe.Sizeof(float64(0))),
+	cGet:      func(c *cbuf, i int) float64 { return float64(unsafeSlice[float64](c, i+1)[i]) },
+	cSet:      func(c *cbuf, i int, v float64) { unsafeSlice[float64](c, i+1)[i] = float64(v) },
 	newGo:     data.NewArrayFloat64,
 	fromSlice: data.ArrayFromSliceFloat64,
 	newC:      cdata.NewFloat64CArray,
-	scale:   data.ScaleFloat64Array,
-	addTo:   data.AddToFloat64Array,
-	applyFn: data.ApplyFunc1Float64,
+	scale:     data.ScaleFloat64Array,
+	addTo:     data.AddToFloat64Array,
+	applyFn:   data.ApplyFunc1Float64,
 	ref: func(file, ds string, sel [][]int) h5ref[float64, data.NDFloat64] {
 		return owio.H5RefFloat64{Filename: file, Dataset: ds, Slice: sel}
 	},
@@ -81,15 +81,15 @@ var kitFloat64 = kit[float64, data.NDFloat64]{
 
 var kitFloat32 = kit[float32, data.NDFloat32]{
 	name: "float32", elemSize: int(unsafe.Sizeof(float32(0))),
-	cSize: int(unsafe.Sizeof(float32(0))),
-	cGet:  func(c *cbuf, i int) float64 { return float64(unsafeSlice[float32](c, i+1)[i]) },
-	cSet:  func(c *cbuf, i int, v float64) { unsafeSlice[float32](c, i+1)[i] = float32(v) },
+	cSize:     int(unsafe.Sizeof(float32(0))),
+	cGet:      func(c *cbuf, i int) float64 { return float64(unsafeSlice[float32](c, i+1)[i]) },
+	cSet:      func(c *cbuf, i int, v float64) { unsafeSlice[float32](c, i+1)[i] = float32(v) },
 	newGo:     data.NewArrayFloat32,
 	fromSlice: data.ArrayFromSliceFloat32,
 	newC:      cdata.NewFloat32CArray,
-	scale:   data.ScaleFloat32Array,
-	addTo:   data.AddToFloat32Array,
-	applyFn: data.ApplyFunc1Float32,
+	scale:     data.ScaleFloat32Array,
+	addTo:     data.AddToFloat32Array,
+	applyFn:   data.ApplyFunc1Float32,
 	ref: func(file, ds string, sel [][]int) h5ref[float32, data.NDFloat32] {
 		return owio.H5RefFloat32{Filename: file, Dataset: ds, Slice: sel}
 	},
@@ -97,15 +97,15 @@ var kitFloat32 = kit[float32, data.NDFloat32]{
 
 var kitInt32 = kit[int32, data.NDInt32]{
 	name: "int32", elemSize: int(unsafe.Sizeof(int32(0))),
-	cSize: int(unsafe.Sizeof(int32(0))),
-	cGet:  func(c *cbuf, i int) float64 { return float64(unsafeSlice[int32](c, i+1)[i]) },
-	cSet:  func(c *cbuf, i int, v float64) { unsafeSlice[int32](c, i+1)[i] = int32(v) },
+	cSize:     int(unsafe.Sizeof(int32(0))),
+	cGet:      func(c *cbuf, i int) float64 { return float64(unsafeSlice[int32](c, i+1)[i]) },
+	cSet:      func(c *cbuf, i int, v float64) { unsafeSlice[int32](c, i+1)[i] = int32(v) },
 	newGo:     data.NewArrayInt32,
 	fromSlice: data.ArrayFromSliceInt32,
 	newC:      cdata.NewInt32CArray,
-	scale:   data.ScaleInt32Array,
-	addTo:   data.AddToInt32Array,
-	applyFn: data.ApplyFunc1Int32,
+	scale:     data.ScaleInt32Array,
+	addTo:     data.AddToInt32Array,
+	applyFn:   data.ApplyFunc1Int32,
 	ref: func(file, ds string, sel [][]int) h5ref[int32, data.NDInt32] {
 		return owio.H5RefInt32{Filename: file, Dataset: ds, Slice: sel}
 	},
@@ -113,15 +113,15 @@ var kitInt32 = kit[int32, data.NDInt32]{
 
 var kitUint32 = kit[uint32, data.NDUint32]{
 	name: "uint32", elemSize: int(unsafe.Sizeof(uint32(0))),
-	cSize: int(unsafe.Sizeof(uint32(0))),
-	cGet:  func(c *cbuf, i int) float64 { return float64(unsafeSlice[uint32](c, i+1)[i]) },
-	cSet:  func(c *cbuf, i int, v float64) { unsafeSlice[uint32](c, i+1)[i] = uint32(v) },
+	cSize:     int(unsafe.Sizeof(uint32(0))),
+	cGet:      func(c *cbuf, i int) float64 { return float64(unsafeSlice[uint32](c, i+1)[i]) },
+	cSet:      func(c *cbuf, i int, v float64) { unsafeSlice[uint32](c, i+1)[i] = uint32(v) },
 	newGo:     data.NewArrayUint32,
 	fromSlice: data.ArrayFromSliceUint32,
 	newC:      cdata.NewUint32CArray,
-	scale:   data.ScaleUint32Array,
-	addTo:   data.AddToUint32Array,
-	applyFn: data.ApplyFunc1Uint32,
+	scale:     data.ScaleUint32Array,
+	addTo:     data.AddToUint32Array,
+	applyFn:   data.ApplyFunc1Uint32,
 	ref: func(file, ds string, sel [][]int) h5ref[uint32, data.NDUint32] {
 		return owio.H5RefUint32{Filename: file, Dataset: ds, Slice: sel}
 	},
@@ -129,15 +129,15 @@ var kitUint32 = kit[uint32, data.NDUint32]{
 
 var kitInt64 = kit[int64, data.NDInt64]{
 	name: "int64", elemSize: int(unsafe.Sizeof(int64(0))),
-	cSize: int(unsafe.Sizeof(int64(0))),
-	cGet:  func(c *cbuf, i int) float64 { return float64(unsafeSlice[int64](c, i+1)[i]) },
-	cSet:  func(c *cbuf, i int, v float64) { unsafeSlice[int64](c, i+1)[i] = int64(v) },
+	cSize:     int(unsafe.Sizeof(int64(0))),
+	cGet:      func(c *cbuf, i int) float64 { return float64(unsafeSlice[int64](c, i+1)[i]) },
+	cSet:      func(c *cbuf, i int, v float64) { unsafeSlice[int64](c, i+1)[i] = int64(v) },
 	newGo:     data.NewArrayInt64,
 	fromSlice: data.ArrayFromSliceInt64,
 	newC:      cdata.NewInt64CArray,
-	scale:   data.ScaleInt64Array,
-	addTo:   data.AddToInt64Array,
-	applyFn: data.ApplyFunc1Int64,
+	scale:     data.ScaleInt64Array,
+	addTo:     data.AddToInt64Array,
+	applyFn:   data.ApplyFunc1Int64,
 	ref: func(file, ds string, sel [][]int) h5ref[int64, data.NDInt64] {
 		return owio.H5RefInt64{Filename: file, Dataset: ds, Slice: sel}
 	},
@@ -145,15 +145,15 @@ var kitInt64 = kit[int64, data.NDInt64]{
 
 var kitUint64 = kit[uint64, data.NDUint64]{
 	name: "uint64", elemSize: int(unsafe.Sizeof(uint64(0))),
-	cSize: int(unsafe.Sizeof(uint64(0))),
-	cGet:  func(c *cbuf, i int) float64 { return float64(unsafeSlice[uint64](c, i+1)[i]) },
-	cSet:  func(c *cbuf, i int, v float64) { unsafeSlice[uint64](c, i+1)[i] = uint64(v) },
+	cSize:     int(unsafe.Sizeof(uint64(0))),
+	cGet:      func(c *cbuf, i int) float64 { return float64(unsafeSlice[uint64](c, i+1)[i]) },
+	cSet:      func(c *cbuf, i int, v float64) { unsafeSlice[uint64](c, i+1)[i] = uint64(v) },
 	newGo:     data.NewArrayUint64,
 	fromSlice: data.ArrayFromSliceUint64,
 	newC:      cdata.NewUint64CArray,
-	scale:   data.ScaleUint64Array,
-	addTo:   data.AddToUint64Array,
-	applyFn: data.ApplyFunc1Uint64,
+	scale:     data.ScaleUint64Array,
+	addTo:     data.AddToUint64Array,
+	applyFn:   data.ApplyFunc1Uint64,
 	ref: func(file, ds string, sel [][]int) h5ref[uint64, data.NDUint64] {
 		return owio.H5RefUint64{Filename: file, Dataset: ds, Slice: sel}
 	},
@@ -161,9 +161,9 @@ var kitUint64 = kit[uint64, data.NDUint64]{
 
 var kitInt = kit[int, data.NDInt]{
 	name: "int", elemSize: int(unsafe.Sizeof(int(0))),
-	cSize: int(unsafe.Sizeof(int32(0))),
-	cGet:  func(c *cbuf, i int) float64 { return float64(unsafeSlice[int32](c, i+1)[i]) },
-	cSet:  func(c *cbuf, i int, v float64) { unsafeSlice[int32](c, i+1)[i] = int32(v) },
+	cSize:     int(unsafe.Sizeof(int32(0))),
+	cGet:      func(c *cbuf, i int) float64 { return float64(unsafeSlice[int32](c, i+1)[i]) },
+	cSet:      func(c *cbuf, i int, v float64) { unsafeSlice[int32](c, i+1)[i] = int32(v) },
 	newGo:     data.NewArrayInt,
 	fromSlice: data.ArrayFromSliceInt,
 	newC:      cdata.NewIntCArray,
@@ -174,9 +174,9 @@ var kitInt = kit[int, data.NDInt]{
 
 var kitUint = kit[uint, data.NDUint]{
 	name: "uint", elemSize: int(unsafe.Sizeof(uint(0))),
-	cSize: int(unsafe.Sizeof(uint32(0))),
-	cGet:  func(c *cbuf, i int) float64 { return float64(unsafeSlice[uint32](c, i+1)[i]) },
-	cSet:  func(c *cbuf, i int, v float64) { unsafeSlice[uint32](c, i+1)[i] = uint32(v) },
+	cSize:     int(unsafe.Sizeof(uint32(0))),
+	cGet:      func(c *cbuf, i int) float64 { return float64(unsafeSlice[uint32](c, i+1)[i]) },
+	cSet:      func(c *cbuf, i int, v float64) { unsafeSlice[uint32](c, i+1)[i] = uint32(v) },
 	newGo:     data.NewArrayUint,
 	fromSlice: data.ArrayFromSliceUint,
 	newC:      cdata.NewUintCArray,
@@ -188,4 +188,3 @@ var kitUint = kit[uint, data.NDUint]{
 const numKits = 8
 
 var kitNames = []string{"float64", "float32", "int32", "uint32", "int64", "uint64", "int", "uint"}
-
